@@ -21,7 +21,8 @@ def make_history(path_or_data, seed, nsteps, name=None, guided=True):
     rng = random.Random(seed)
     env.reset()
     shape = env.state.grid.shape
-    guided = guided and shape.height * shape.width <= 49
+    stochastic = any(c['name'] in ('move_obstacles', 'teleport') for c in cfg['comps'])
+    guided = guided and shape.height * shape.width <= 49 and not stochastic   # planning over random outcomes is too slow
     dyn = RealDynamics(cfg['comps'], cfg['term'], config.goal_kind(cfg)) if guided else None
     recs = [{'id': -1, 'comps': cfg['comps'], 'config': name or ''}]
     plan = []
